@@ -39,6 +39,12 @@ func exprStr(e ast.Node) string {
 	return s
 }
 
+func fullStr(e ast.Node) string {
+	var sb strings.Builder
+	printer.Fprint(&sb, fset, e)
+	return strings.Join(strings.Fields(sb.String()), " ")
+}
+
 func leanStr(s string) string {
 	s = strings.ReplaceAll(s, "\\", "\\\\")
 	s = strings.ReplaceAll(s, "\"", "\\\"")
@@ -59,6 +65,10 @@ func main() {
 	closedUses := []string{}
 	recvWrites := []string{}
 	boltOpenArgs := []string{}
+	layout := []string{} // "pkg.func: <statements of the body>" for the functions that define the key layout and the type ranks
+	layoutFns := map[string]bool{"getCollectionKeyPrefix": true, "getCollectionKey": true, "getDocumentKeyPrefix": true, "getDocumentKey": true,
+		"getKeyPrefix": true, "getKeyPrefixForType": true, "getKey": true, "extractDocId": true, "TypeId": true, "compareTypes": true,
+		"getEncodeValue": true, "OrderedCode": true}
 
 	for _, dir := range dirs {
 		pkgs, err := parser.ParseDir(fset, filepath.Join(*repo, dir), func(fi os.FileInfo) bool {
@@ -88,9 +98,13 @@ func main() {
 					case *ast.GenDecl:
 						if dcl.Tok == token.VAR {
 							for _, sp := range dcl.Specs {
-								for _, n := range sp.(*ast.ValueSpec).Names {
+								vs := sp.(*ast.ValueSpec)
+								for i, n := range vs.Names {
 									if n.Name != "_" {
 										pkgVars = append(pkgVars, pn+"."+n.Name)
+									}
+									if n.Name == "typesMap" && i < len(vs.Values) {
+										layout = append(layout, pn+".typesMap = "+fullStr(vs.Values[i]))
 									}
 								}
 							}
@@ -121,6 +135,13 @@ func main() {
 						order = append(order, key)
 						if dcl.Body == nil {
 							continue
+						}
+						if layoutFns[f.name] {
+							stmts := []string{}
+							for _, st := range dcl.Body.List {
+								stmts = append(stmts, fullStr(st))
+							}
+							layout = append(layout, pn+"."+f.name+": "+strings.Join(stmts, " ; "))
 						}
 						okAssert := map[ast.Node]bool{} // type assertions in comma-ok form or in type switches
 						ast.Inspect(dcl.Body, func(n ast.Node) bool {
@@ -306,6 +327,8 @@ func main() {
 	strList("packageVars", "package-level variables outside tests", pkgVars)
 	sort.Strings(recvWrites)
 	strList("receiverWrites", "assignments through a method receiver (all packages)", recvWrites)
+	sort.Strings(layout)
+	strList("keyLayout", "the functions that define the key layout, the type ranks and the key encoding dispatch, statement by statement", layout)
 	sb.WriteString("structure PanicSite where\n  file : String\n  fn : String\n  kind : String\n  expr : String\nderiving DecidableEq, Repr\n\n")
 	sb.WriteString("/-- unchecked type assertions and explicit panics, in source order -/\ndef panicSites : List PanicSite := [")
 	for i, s := range sites {
